@@ -65,13 +65,15 @@ def gen_case(rng: random.Random, cls: str) -> Dict[str, Any]:
                 events.append({"ev": "exit_override"})
 
     block_idx = []
+    will_unroll = rng.random() < 0.6
+    will_flatten = rng.random() < 0.25
     for i, step in enumerate(prog["circuit"]["steps"]):
         events.append({"ev": "add", "step": step})
         if "sub" in step:
             block_idx.append(i)
         maybe_observe(0.3)
         maybe_settings(0.12)
-        if block_idx and rng.random() < 0.15:
+        if block_idx and rng.random() < 0.3:
             # grow a nested sub-circuit with an operation of a channel footprint it already has (a new footprint would
             # change which later operations match the block, which no history-free replay can reproduce)
             b = rng.choice(block_idx)
@@ -83,16 +85,25 @@ def gen_case(rng: random.Random, cls: str) -> Dict[str, Any]:
                     g["chan"] = src["chan"]
                 if "dur" in src or rng.random() < 0.5:
                     g["dur"] = rng.choice([1, 3, src.get("dur", 1)])
+                if not (will_unroll or will_flatten) and rng.random() < 0.5:
+                    # a NEW footprint (a qubit the block does not touch yet): the grown operation becomes a head of the block.
+                    # Only in histories that are not copied/unrolled later (copies re-place such heads implicitly).
+                    used = {q for st in leaves for q in st["q"]}
+                    free = [q for q in range(6) if q not in used]
+                    if free:
+                        g = {"k": "Wait", "q": [rng.choice(free)], "dur": rng.choice([1, 3])}
                 events.append({"ev": "grow", "block": b, "step": g})
+                if rng.random() < 0.5:
+                    events.append({"ev": rng.choice(["duration", "handle_times", "duration"])})   # read before the next listing
                 maybe_observe(0.6)
     maybe_observe(0.5)
     maybe_settings(0.3)
-    if rng.random() < 0.6:
+    if will_unroll:
         events.append({"ev": "apply_modifiers"})
         maybe_observe(0.5)
         maybe_settings(0.3)
         maybe_observe(0.4)
-    if rng.random() < 0.25:
+    if will_flatten:
         events.append({"ev": "flatten"})
         maybe_observe(0.5)
         maybe_settings(0.2)
@@ -453,6 +464,9 @@ def check_history(hist: Dict[str, Any], acc: Acc):
         if snap_a["times"] != snap_b["times"] or snap_a["duration"] != snap_b["duration"]:
             stale = snap_a["_shadow_times"] == snap_b["times"] and snap_a["_shadow_duration"] == snap_b["duration"]
             sig = f"stale-memo/{run_a.last_mutation}" if stale else "history/times"
+            if struct_known and not stale:
+                # the value-equal-heads collision re-points relations; after a flatten the structure snapshot no longer shows it, the times do
+                sig = "listing-before-copy/value-equal-heads"
             acc.finding(sig, f"final reported times differ between the full history and the mutations-only run (last mutation: {run_a.last_mutation})", case,
                         {"with_observations": _first_diff(snap_a["times"], snap_b["times"]), "durations": [snap_a["duration"], snap_b["duration"]]})
     # final snapshot vs model (run B is observation-free: its times must match the model under the current settings)
